@@ -319,4 +319,378 @@ theorem held_streamWindowUpdated (c : Conn) (s sid : Nat) (hl : c.liveS s = true
     rw [buf_aerase]
     simp [hne]
 
+/-! ### `connection_window_updated`: the round robin over all buffers -/
+
+/-- only the last chunk of a buffer may carry END_STREAM -/
+def finLast : List Chunk → Prop
+  | [] => True
+  | [_] => True
+  | c :: d :: r => c.fin = false ∧ finLast (d :: r)
+
+/-- what the callers of BufferedH2Connection keep up for a stream: nothing is buffered for a stream that cannot send
+    any more, and an end of stream waits behind all its data -/
+def StreamOk (c : Conn) (sid : Nat) : Prop := (c.liveS sid = false → c.buf sid = []) ∧ finLast (c.buf sid)
+
+theorem getS_updS (c : Conn) (s sid : Nat) (f : Stream → Stream) :
+    (c.updS s f).getS sid = if s = sid then (c.getS sid).map f else c.getS sid := by
+  unfold Conn.updS
+  cases hg : c.getS s with
+  | none =>
+    by_cases h : s = sid
+    · subst h; simp [hg]
+    · simp [h]
+  | some st =>
+    by_cases h : s = sid
+    · subst h
+      show alookup s (aset s (f st) c.streams) = _
+      rw [alookup_aset_same]; simp [hg]
+    · have : sid ≠ s := fun e => h e.symm
+      show alookup sid (aset s (f st) c.streams) = _
+      rw [alookup_aset_ne _ _ _ _ this]; simp [h, Conn.getS]
+
+theorem dead_updS (c : Conn) (s : Nat) (f : Stream → Stream) : (c.updS s f).dead = c.dead := by
+  unfold Conn.updS; split <;> rfl
+
+theorem liveS_updS (c : Conn) (s sid : Nat) (f : Stream → Stream) (hf : ∀ x, s = sid → (f x).live = x.live) :
+    (c.updS s f).liveS sid = c.liveS sid := by
+  unfold Conn.liveS
+  rw [dead_updS, getS_updS]
+  by_cases h : s = sid
+  · simp only [h, if_true]
+    cases hg : c.getS sid with
+    | none => rfl
+    | some st => simp [hf st h]
+  · simp [h]
+
+/-- a connection that differs only in buffers, output and windows -/
+theorem liveS_congr (c c' : Conn) (h1 : c'.streams = c.streams) (h2 : c'.dead = c.dead) (sid : Nat) :
+    c'.liveS sid = c.liveS sid := by
+  unfold Conn.liveS Conn.getS; rw [h1, h2]
+
+theorem liveS_rawSend_nofin (c : Conn) (s sid : Nat) (d : Bytes) : (c.rawSend s d false).liveS sid = c.liveS sid := by
+  unfold Conn.rawSend
+  have := liveS_updS c s sid (fun st => { st with win := st.win - d.length, localOpen := st.localOpen && !false })
+    (by intro x _; simp [Stream.live])
+  rw [← this]
+  exact liveS_congr _ _ rfl rfl sid
+
+theorem liveS_rawSend_ne (c : Conn) (s sid : Nat) (d : Bytes) (fin : Bool) (h : s ≠ sid) :
+    (c.rawSend s d fin).liveS sid = c.liveS sid := by
+  unfold Conn.rawSend
+  have := liveS_updS c s sid (fun st => { st with win := st.win - d.length, localOpen := st.localOpen && !fin })
+    (by intro x e; exact absurd e h)
+  rw [← this]
+  exact liveS_congr _ _ rfl rfl sid
+
+theorem liveS_rawTrailers_ne (c : Conn) (s sid : Nat) (h : s ≠ sid) : (c.rawTrailers s).liveS sid = c.liveS sid := by
+  unfold Conn.rawTrailers
+  have := liveS_updS c s sid (fun st => { st with localOpen := false }) (by intro x e; exact absurd e h)
+  rw [← this]
+  exact liveS_congr _ _ rfl rfl sid
+
+theorem finLast_tail (ch : Chunk) (rest : List Chunk) (h : finLast (ch :: rest)) : finLast rest := by
+  cases rest with
+  | nil => trivial
+  | cons d r => exact h.2
+
+theorem finLast_split (ch : Chunk) (rest : List Chunk) (n : Nat) (h : finLast (ch :: rest)) :
+    finLast (⟨ch.data.drop n, ch.fin⟩ :: rest) := by
+  cases rest with
+  | nil => trivial
+  | cons d r => exact ⟨h.1, h.2⟩
+
+/-- flushing stream `s` leaves every OTHER stream exactly as it was -/
+theorem flushLoop_other (f : Nat) (c : Conn) (s sid : Nat) (w : Int) (sent : Bool) (h : s ≠ sid) :
+    (Conn.flushLoop f c s w sent).1.buf sid = c.buf sid ∧ (Conn.flushLoop f c s w sent).1.liveS sid = c.liveS sid := by
+  induction f generalizing c w sent with
+  | zero => exact ⟨rfl, rfl⟩
+  | succ f ih =>
+    unfold Conn.flushLoop
+    by_cases hw : w > 0
+    · simp only [hw, if_true]
+      cases hb : c.buf s with
+      | nil => exact ⟨rfl, rfl⟩
+      | cons ch rest =>
+        simp only []
+        by_cases hbig : (ch.data.length : Int) > min w (c.mfs : Int)
+        · simp only [hbig, if_true, List.isEmpty_cons, Bool.false_eq_true, if_false]
+          refine ⟨(ih _ _ _).1.trans ?_, (ih _ _ _).2.trans ?_⟩
+          · rw [buf_aset]; simp only [h, if_false]; exact (held_rawSend c s sid _ false).2
+          · exact liveS_rawSend_ne c s sid _ false h
+        · simp only [hbig, if_false]
+          by_cases hre : rest.isEmpty = true
+          · simp only [hre, if_true]
+            split
+            · refine ⟨(ih _ _ _).1.trans ?_, (ih _ _ _).2.trans ?_⟩
+              · show (Conn.rawTrailers _ s).buf sid = _
+                rw [(held_rawTrailers _ s sid).2, buf_aerase]; simp only [h, if_false]
+                exact (held_rawSend c s sid _ _).2
+              · show (Conn.rawTrailers _ s).liveS sid = _
+                rw [liveS_rawTrailers_ne _ s sid h]
+                exact liveS_rawSend_ne c s sid _ _ h
+            · refine ⟨(ih _ _ _).1.trans ?_, (ih _ _ _).2.trans ?_⟩
+              · rw [buf_aerase]; simp only [h, if_false]; exact (held_rawSend c s sid _ _).2
+              · exact liveS_rawSend_ne c s sid _ _ h
+          · simp only [hre, Bool.false_eq_true, if_false]
+            refine ⟨(ih _ _ _).1.trans ?_, (ih _ _ _).2.trans ?_⟩
+            · rw [buf_aset]; simp only [h, if_false]; exact (held_rawSend c s sid _ _).2
+            · exact liveS_rawSend_ne c s sid _ _ h
+    · simp only [hw, if_false]
+      first | exact ⟨rfl, rfl⟩ | trivial | simp
+
+/-- flushing a well-kept stream keeps it well kept -/
+theorem flushLoop_ok (f : Nat) (c : Conn) (s : Nat) (w : Int) (sent : Bool) (h : StreamOk c s) :
+    StreamOk (Conn.flushLoop f c s w sent).1 s := by
+  induction f generalizing c w sent with
+  | zero => exact h
+  | succ f ih =>
+    unfold Conn.flushLoop
+    by_cases hw : w > 0
+    · simp only [hw, if_true]
+      cases hb : c.buf s with
+      | nil => exact h
+      | cons ch rest =>
+        simp only []
+        have hlive : c.liveS s = true := by
+          cases hl : c.liveS s with
+          | true => rfl
+          | false => have := h.1 hl; rw [hb] at this; simp at this
+        have hfl : finLast (ch :: rest) := by have := h.2; rwa [hb] at this
+        by_cases hbig : (ch.data.length : Int) > min w (c.mfs : Int)
+        · simp only [hbig, if_true, List.isEmpty_cons, Bool.false_eq_true, if_false]
+          apply ih
+          refine ⟨?_, ?_⟩
+          · intro hl
+            have e : (c.rawSend s (ch.data.take (min w (c.mfs : Int)).toNat) false).liveS s = c.liveS s :=
+              liveS_rawSend_nofin c s s _
+            have hl' : (c.rawSend s (ch.data.take (min w (c.mfs : Int)).toNat) false).liveS s = false := hl
+            rw [e, hlive] at hl'
+            simp at hl'
+          · rw [buf_aset]; simp only [if_true]; exact finLast_split ch rest _ hfl
+        · simp only [hbig, if_false]
+          by_cases hre : rest.isEmpty = true
+          · simp only [hre, if_true]
+            split
+            · apply ih
+              refine ⟨fun _ => ?_, ?_⟩
+              · show (Conn.rawTrailers _ s).buf s = []
+                rw [(held_rawTrailers _ s s).2, buf_aerase]; simp
+              · show finLast ((Conn.rawTrailers _ s).buf s)
+                rw [(held_rawTrailers _ s s).2, buf_aerase]; simp [finLast]
+            · apply ih
+              refine ⟨fun _ => ?_, ?_⟩
+              · rw [buf_aerase]; simp
+              · rw [buf_aerase]; simp [finLast]
+          · simp only [hre, Bool.false_eq_true, if_false]
+            apply ih
+            have hne : rest ≠ [] := by intro e; rw [e] at hre; simp at hre
+            have hfin : ch.fin = false := by
+              cases rest with
+              | nil => exact absurd rfl hne
+              | cons d r => exact hfl.1
+            refine ⟨?_, ?_⟩
+            · intro hl
+              have hl' : (c.rawSend s ch.data ch.fin).liveS s = false := hl
+              rw [hfin, liveS_rawSend_nofin, hlive] at hl'
+              simp at hl'
+            · rw [buf_aset]; simp only [if_true]; exact finLast_tail ch rest hfl
+    · simp only [hw, if_false]; exact h
+
+/-- one `stream_window_updated` call inside the round robin, seen from a well-kept stream `sid` -/
+theorem streamWindowUpdated_ok (c : Conn) (s sid : Nat) (h : StreamOk c sid) :
+    (c.streamWindowUpdated s).1.held sid = c.held sid ∧ StreamOk (c.streamWindowUpdated s).1 sid := by
+  unfold Conn.streamWindowUpdated
+  by_cases hl : c.liveS s = true
+  · simp only [hl, Bool.not_true, Bool.false_eq_true, if_false]
+    refine ⟨held_flushLoop _ c s sid _ _, ?_⟩
+    by_cases hs : s = sid
+    · subst hs; exact flushLoop_ok _ c s _ _ h
+    · have o := flushLoop_other ((c.buf s).length + ((c.buf s).map (·.data.length)).sum + 1) c s sid (c.localWin s) false hs
+      unfold StreamOk
+      rw [o.1, o.2]; exact h
+  · simp only [hl, Bool.not_false, if_true]
+    have hlf : c.liveS s = false := by simpa using hl
+    by_cases hs : s = sid
+    · subst hs
+      have hb := h.1 hlf
+      refine ⟨?_, ?_⟩
+      · unfold Conn.held Conn.bufBytes; rw [buf_aerase]; simp [hb]
+      · refine ⟨fun _ => ?_, ?_⟩
+        · rw [buf_aerase]; simp
+        · rw [buf_aerase]; simp [finLast]
+    · refine ⟨?_, ?_⟩
+      · unfold Conn.held Conn.bufBytes; rw [buf_aerase]; simp [hs]
+      · refine ⟨fun hl' => ?_, ?_⟩
+        · rw [buf_aerase]; simp only [hs, if_false]; exact h.1 hl'
+        · rw [buf_aerase]; simp only [hs, if_false]; exact h.2
+
+/-- moving a buffer to the end of the dict changes no buffer -/
+theorem buf_moveToEnd (c : Conn) (s sid : Nat) :
+    ({ c with bufs := aerase s c.bufs ++ [(s, c.buf s)] } : Conn).buf sid = c.buf sid := by
+  unfold Conn.buf
+  rw [alookup_append]
+  by_cases h : s = sid
+  · subst h; rw [alookup_aerase_same]; simp [alookup]
+  · have : sid ≠ s := fun e => h e.symm
+    rw [alookup_aerase_ne _ _ _ this]
+    cases alookup sid c.bufs with
+    | some v => rfl
+    | none => simp [alookup, h]
+
+theorem rrPass_ok (l : List Nat) (c : Conn) (sent : Bool) (sid : Nat) (h : StreamOk c sid) :
+    (Conn.rrPass l c sent).1.held sid = c.held sid ∧ StreamOk (Conn.rrPass l c sent).1 sid := by
+  induction l generalizing c sent with
+  | nil => exact ⟨rfl, h⟩
+  | cons s rest ih =>
+    unfold Conn.rrPass
+    let c1 : Conn := { c with bufs := aerase s c.bufs ++ [(s, c.buf s)] }
+    have h1 : StreamOk c1 sid := by
+      refine ⟨fun hl' => ?_, ?_⟩
+      · rw [buf_moveToEnd]; exact h.1 hl'
+      · rw [buf_moveToEnd]; exact h.2
+    have hh1 : c1.held sid = c.held sid := by
+      unfold Conn.held Conn.bufBytes; rw [buf_moveToEnd]
+    have sw := streamWindowUpdated_ok c1 s sid h1
+    simp only []
+    cases hsw : c1.streamWindowUpdated s with
+    | mk c2 b =>
+      rw [hsw] at sw
+      simp only [] at sw
+      cases b with
+      | true =>
+        simp only [if_true]
+        split
+        · exact ⟨sw.1.trans hh1, sw.2⟩
+        · have := ih c2 true sw.2
+          exact ⟨this.1.trans (sw.1.trans hh1), this.2⟩
+      | false =>
+        simp only [Bool.false_eq_true, if_false]
+        have := ih c2 sent sw.2
+        exact ⟨this.1.trans (sw.1.trans hh1), this.2⟩
+
+/-- `connection_window_updated`: whatever the windows, however many rounds — for every well-kept stream the bytes on
+    the wire followed by the bytes still buffered stay what they were -/
+theorem connWindowUpdated_ok (f : Nat) (c : Conn) (sid : Nat) (h : StreamOk c sid) :
+    (Conn.connWindowUpdated f c).held sid = c.held sid ∧ StreamOk (Conn.connWindowUpdated f c) sid := by
+  induction f generalizing c with
+  | zero => exact ⟨rfl, h⟩
+  | succ f ih =>
+    unfold Conn.connWindowUpdated
+    have p := rrPass_ok (c.bufs.map (·.1)) c false sid h
+    cases hp : Conn.rrPass (c.bufs.map (·.1)) c false with
+    | mk c2 rest =>
+      obtain ⟨sent, early⟩ := rest
+      rw [hp] at p
+      simp only [] at p ⊢
+      split
+      · exact p
+      · have := ih c2 p.2
+        exact ⟨this.1.trans p.1, this.2⟩
+
+/-! ### the callers' discipline keeps `StreamOk` -/
+
+theorem finLast_snoc (l : List Chunk) (ch : Chunk) (h : ∀ x ∈ l, x.fin = false) : finLast (l ++ [ch]) := by
+  induction l with
+  | nil => trivial
+  | cons a rest ih =>
+    have h1 := h a (by simp)
+    have := ih (fun x hx => h x (by simp [hx]))
+    cases rest with
+    | nil => exact ⟨h1, trivial⟩
+    | cons b r => exact ⟨h1, this⟩
+
+/-- what `send_data` is called with: the stream may still send (`is_open_for_us`) and no end of stream is pending -/
+def CanSubmit (c : Conn) (s : Nat) : Prop := c.liveS s = true ∧ ∀ x ∈ c.buf s, x.fin = false
+
+theorem sendData1_ok (c : Conn) (s sid : Nat) (d : Bytes) (fin : Bool) (hc : CanSubmit c s) (h : StreamOk c sid) :
+    StreamOk (c.sendData1 s d fin) sid ∧ (fin = false → CanSubmit (c.sendData1 s d fin) s) := by
+  have other : ∀ c' : Conn, c'.liveS sid = c.liveS sid → c'.buf sid = c.buf sid → StreamOk c' sid := by
+    intro c' h1 h2; unfold StreamOk; rw [h1, h2]; exact h
+  unfold Conn.sendData1
+  by_cases hb : (c.buf s).isEmpty = true
+  · simp only [hb, Bool.not_true, Bool.false_eq_true, if_false]
+    have hbe : c.buf s = [] := by simpa using hb
+    by_cases h1 : ((d.length : Int) ≤ c.localWin s)
+    · simp only [h1, if_true]
+      refine ⟨?_, ?_⟩
+      · by_cases hs : s = sid
+        · subst hs
+          refine ⟨fun _ => ?_, ?_⟩
+          · rw [(held_rawSend c s s d fin).2]; exact hbe
+          · rw [(held_rawSend c s s d fin).2, hbe]; trivial
+        · exact other _ (liveS_rawSend_ne c s sid d fin hs) (held_rawSend c s sid d fin).2
+      · intro hf; subst hf
+        refine ⟨by rw [liveS_rawSend_nofin]; exact hc.1, ?_⟩
+        rw [(held_rawSend c s s d false).2, hbe]; intro x hx; simp at hx
+    · simp only [h1, if_false]
+      by_cases h2 : c.localWin s > 0
+      · simp only [h2, if_true]
+        have hl : (Conn.appendBuf (c.rawSend s (d.take (c.localWin s).toNat) false) s ⟨d.drop (c.localWin s).toNat, fin⟩).liveS sid
+            = c.liveS sid := liveS_rawSend_nofin c s sid _
+        refine ⟨?_, ?_⟩
+        · by_cases hs : s = sid
+          · subst hs
+            refine ⟨fun hl' => ?_, ?_⟩
+            · rw [hl, hc.1] at hl'; simp at hl'
+            · rw [buf_appendBuf, (held_rawSend c s s _ false).2, hbe]; simp [finLast]
+          · refine other _ hl ?_
+            rw [buf_appendBuf]; simp only [hs, if_false]; exact (held_rawSend c s sid _ false).2
+        · intro hf; subst hf
+          refine ⟨by
+            show (Conn.appendBuf (c.rawSend s _ false) s _).liveS s = true
+            have : (Conn.appendBuf (c.rawSend s (d.take (c.localWin s).toNat) false) s ⟨d.drop (c.localWin s).toNat, false⟩).liveS s
+                = c.liveS s := liveS_rawSend_nofin c s s _
+            rw [this]; exact hc.1, ?_⟩
+          rw [buf_appendBuf, (held_rawSend c s s _ false).2, hbe]
+          intro x hx; simp at hx; subst hx; rfl
+      · simp only [h2, if_false]
+        refine ⟨?_, ?_⟩
+        · by_cases hs : s = sid
+          · subst hs
+            refine ⟨fun hl' => ?_, ?_⟩
+            · have : (c.appendBuf s ⟨d, fin⟩).liveS s = c.liveS s := rfl
+              rw [this, hc.1] at hl'; simp at hl'
+            · rw [buf_appendBuf, hbe]; simp [finLast]
+          · refine other _ rfl ?_
+            rw [buf_appendBuf]; simp [hs]
+        · intro hf; subst hf
+          refine ⟨hc.1, ?_⟩
+          rw [buf_appendBuf, hbe]; intro x hx; simp at hx; subst hx; rfl
+  · simp only [hb, Bool.not_false, if_true]
+    refine ⟨?_, ?_⟩
+    · by_cases hs : s = sid
+      · subst hs
+        refine ⟨fun hl' => ?_, ?_⟩
+        · have : (c.appendBuf s ⟨d, fin⟩).liveS s = c.liveS s := rfl
+          rw [this, hc.1] at hl'; simp at hl'
+        · rw [buf_appendBuf]; simp only [if_true]; exact finLast_snoc _ _ hc.2
+      · refine other _ rfl ?_
+        rw [buf_appendBuf]; simp [hs]
+    · intro hf; subst hf
+      refine ⟨hc.1, ?_⟩
+      rw [buf_appendBuf]; simp only [if_true]
+      intro x hx
+      rcases List.mem_append.mp hx with h1 | h1
+      · exact hc.2 x h1
+      · simp at h1; subst h1; rfl
+
+theorem sendPieces_ok (f : Nat) (c : Conn) (s sid : Nat) (d : Bytes) (fin : Bool) (hc : CanSubmit c s)
+    (h : StreamOk c sid) : StreamOk (Conn.sendPieces f c s d fin) sid := by
+  induction f generalizing c d with
+  | zero => exact h
+  | succ f ih =>
+    unfold Conn.sendPieces
+    split
+    · exact (sendData1_ok c s sid d fin hc h).1
+    · have r := sendData1_ok c s sid (d.take c.mfs) false hc h
+      exact ih _ _ (r.2 rfl) r.1
+
+/-- `send_data` (any size) on a stream that may still send keeps every stream well kept -/
+theorem sendData_ok (c : Conn) (s sid : Nat) (d : Bytes) (fin : Bool) (hc : CanSubmit c s) (h : StreamOk c sid) :
+    StreamOk (c.sendData s d fin) sid := by
+  unfold Conn.sendData
+  split
+  · exact sendPieces_ok _ c s sid d fin hc h
+  · exact (sendData1_ok c s sid d fin hc h).1
+
 end MitmVerif.C05
